@@ -73,7 +73,8 @@ def finish(pid, tier, seed, plan, results, wall):
     contracts, inlined, trusted = set(), set(), set()
     paths = 0
     unsupported = []
-    solver = {"queries": 0, "time": 0.0, "max": 0.0, "unknown": 0}
+    solver = {"queries": 0, "time": 0.0, "max": 0.0, "unknown": 0, "cvc5_checked": 0, "cvc5_unsat": 0, "cvc5_unknown": 0,
+              "cvc5_error": 0, "cvc5_disagree": 0, "cvc5_time": 0.0}
     samples = []
     bounded = []
     for r in results:
@@ -93,7 +94,8 @@ def finish(pid, tier, seed, plan, results, wall):
         paths += r["paths"]
         unsupported.extend(r["unsupported"])
         bounded.extend(r.get("bounded", []))
-        for k in ("queries", "time", "unknown"):
+        for k in ("queries", "time", "unknown", "cvc5_checked", "cvc5_unsat", "cvc5_unknown", "cvc5_error", "cvc5_disagree",
+                  "cvc5_time"):
             solver[k] += r.get("solver", {}).get(k, 0)
         solver["max"] = max(solver["max"], r.get("solver", {}).get("max", 0))
         if len(samples) < 4:
@@ -107,6 +109,12 @@ def finish(pid, tier, seed, plan, results, wall):
         return 3
     if not obs:
         print(f"CHECKER-ERROR property={pid} zero obligations were generated")
+        return 3
+    if solver["cvc5_disagree"]:
+        # z3 refuted a VC that cvc5 finds satisfiable: the verdict of this run cannot be trusted either way
+        print(f"CHECKER-ERROR property={pid} solver disagreement on {solver['cvc5_disagree']} VC(s) (z3: unsat, cvc5: sat)")
+        write_evidence(pid, tier, seed, plan, obs, [], [], [], functions, contracts, inlined, trusted, paths, solver,
+                       samples, wall, unsupported, bounded, note="solver disagreement (z3 unsat / cvc5 sat)")
         return 3
     failed = {n: o for n, o in obs.items() if o["n_failed"]}
     undecided = {n: o for n, o in obs.items() if o["n_undecided"] and not o["n_failed"]}
@@ -212,7 +220,9 @@ def write_evidence(pid, tier, seed, plan, obs, violations, known_hits, und_notes
                                "discharged by z3",
         "path_vcs": vcs,
         "paths": paths,
-        "vcs_by_backend": {"z3-" + z3.get_version_string(): solver["queries"]},
+        "vcs_by_backend": dict({"z3-" + z3.get_version_string(): solver["queries"]},
+                               **({"cvc5-1.0.3 (re-check of VCs refuted by z3)": solver["cvc5_unsat"]} if solver.get("cvc5_checked") else {})),
+        "second_backend": {k: (round(v, 2) if isinstance(v, float) else v) for k, v in solver.items() if k.startswith("cvc5_")},
         "solver_time_s": round(solver["time"], 2),
         "max_vc_time_s": round(solver["max"], 3),
         "solver_unknown": solver["unknown"],
